@@ -114,5 +114,5 @@ FromGoIsIdentity == [][stage = "go" /\ stage' = "xgo" => Strip(obj') = obj]_<<va
 Predict == (IF PredTP THEN <<"lost:TypeParams">> ELSE <<>>) \o (IF PredNames THEN <<"lost:Names">> ELSE <<>>)
            \o (IF PredPanic THEN <<"panic:togo:IndexListExpr">> ELSE <<>>)
 RExport == stage \in {"back", "panic"} =>
-   Emit([focus |-> Focus, wrap |-> Wrap, sx |-> sx, text |-> lay, moves |-> moves, cost |-> used, predict |-> Predict])
+   Emit([focus |-> FocusTab[foc].label, wrap |-> FocusTab[foc].wrap, sx |-> sx, text |-> lay, moves |-> moves, cost |-> used, predict |-> Predict])
 =============================================================================
